@@ -203,8 +203,15 @@ def check(c, viol, counters):
             v("cpu-op-code-or-version-changed", "source (%s,%s,v%s) output (%s,%s,v%s)" % (sop.builtin, sop.custom, sop.version, oop.builtin, oop.custom, oop.version))
         so, oo = option_fields(sop, src.buf), option_fields(oop, out.buf)
         if not options_equal(so, oo):
+            if so is None and isinstance(oo, dict):
+                so = default_fields(oo["__type__"])  # an absent table denotes the schema defaults
+            if oo is None and isinstance(so, dict):
+                oo = default_fields(so["__type__"])
             diff = {kk: (so.get(kk), (oo or {}).get(kk)) for kk in (so or {}) if (oo or {}).get(kk) != so.get(kk)} if isinstance(so, dict) and isinstance(oo, dict) else (so, oo)
-            v("cpu-op-options-changed", "operator %s: %s" % (out_names, diff))
+            if isinstance(diff, dict) and set(diff) == {"DepthMultiplier"} and diff["DepthMultiplier"][0] == 0:
+                diff = {"DepthMultiplier-implicit-made-explicit": diff["DepthMultiplier"]}
+            what = "+".join(sorted(str(kk) for kk in diff)) if isinstance(diff, dict) else "table"
+            v("cpu-op-options-changed:builtin%d:%s" % (sop.builtin, what[:60]), "operator %s: %s" % (out_names, diff))
         if (sop.custom_options or b"") != (oop.custom_options or b""):
             v("cpu-op-custom-options-changed", "operator %s: %r -> %r" % (out_names, sop.custom_options, oop.custom_options))
         # wiring and operands
